@@ -45,7 +45,7 @@ Fixpoint spec_match_ok (g : bool) (k : Z) (s : spec) (l : list (op * oview)) : b
   | (o, ov) :: r =>
     if op_ok g k s o then
       let '(s', ob) := sstep s o in
-      view_match (ob, (length (un s'), un s')) ov && spec_match_ok (next_g g o) (next_k k o) s' r
+      view_match (ob, (length (un s'), un s')) ov && spec_match_ok (next_g g o) (next_k k s o) s' r
     else true
   end.
 
@@ -133,7 +133,7 @@ Proof.
   pose proof (R_len _ _ _ HR') as Hlen. pose proof HR' as (_ & Hl' & _).
   rewrite <- Ho, Hlen, <- Hl' in Hs1.
   rewrite (view_match_trans _ _ _ Ht1 Hs1 Hsh1). cbn [andb].
-  apply (IH (next_g g o) (next_k k o) b' s'); assumption.
+  apply (IH (next_g g o) (next_k k s o) b' s'); assumption.
 Qed.
 
 Lemma ctex_sound steps : forall g k b s, R g b s -> (zn (cap b) <= k)%Z -> tex_match b steps = true -> spec_match_ok g k s steps = true.
@@ -144,7 +144,7 @@ Proof.
   destruct (step b o) as [b' ob]. destruct (sstep s o) as [s' os]. cbn [fst snd] in *.
   apply andb_prop in Ht. destruct Ht as [Ht1 Ht2].
   pose proof (R_len _ _ _ HR') as Hlen. pose proof HR' as (_ & Hl' & _).
-  rewrite <- Ho, Hlen, <- Hl'. rewrite Ht1. cbn [andb]. apply (IH (next_g g o) (next_k k o) b' s'); assumption.
+  rewrite <- Ho, Hlen, <- Hl'. rewrite Ht1. cbn [andb]. apply (IH (next_g g o) (next_k k s o) b' s'); assumption.
 Qed.
 
 Theorem case_sound : forall c, case_accept c = true -> case_holds c = true.
